@@ -167,6 +167,8 @@ def rule_A_OVR_BASE(ctx, repo, cache):
             for o in outs:
                 for e in o.st.events:
                     if e.kind == 'BASE' and e.depth == 0:
+                        if name in ('__reduce__', '__reduce_ex__') and e.args[0][1] == name:
+                            continue    # delegating to the default pickling protocol is no access to the entries (what the pickle then carries is A-RED's question)
                         bad = (e, o)
             ctx.ob('A-BASE', '%s.%s' % (ci.label, name), bad is None)
             if bad is not None:
@@ -332,7 +334,7 @@ def rule_A_PUBFAIL(ctx, repo, cache):
             evs = o.st.events
             for i, e in enumerate(evs):
                 if e.kind in ('WRITE!', 'ENCODE!') and e.args and e.args[-1] in (C('TypeError'), C(GENERIC), C('AttributeError')) \
-                        and (e.kind == 'ENCODE!' or on_self_store(e.args[0])):
+                        and (e.kind == 'ENCODE!' or on_self_store(e.args[0]) or e.args[0][0] == 'call'):     # ... or a staging file elsewhere (tempfile.gettempdir())
                     n += 1
                     for x in evs[i + 1:]:
                         if x.kind == e.kind[:-1] and e.kind == 'ENCODE!':
@@ -392,6 +394,20 @@ def rule_A_TXN(ctx, repo, cache):
                         if (k.arg == 'isolation_level' and isinstance(k.value, ast.Constant) and k.value.value is None) or \
                                 (k.arg == 'autocommit' and isinstance(k.value, ast.Constant) and k.value.value is True):
                             auto = (mname, n.lineno)
+        # an explicit transaction that reads before it writes takes the write lock when it begins: a plain (deferred) BEGIN holds a SHARED lock after the
+        # SELECT, and the upgrade at the INSERT fails with SQLITE_BUSY at once - without honouring the busy timeout - when another process wrote meanwhile
+        import re as _re
+        for mname, mfi in sorted(ci.methods.items()):
+            for n in ast.walk(mfi.node):
+                if isinstance(n, ast.Constant) and isinstance(n.value, str) and _re.match(r'\s*begin\b', n.value, _re.I):
+                    okb = bool(_re.match(r'\s*begin\s+(immediate|exclusive)\b', n.value, _re.I))
+                    ctx.ob('A-TXN', '%s.%s: `%s` takes the write lock' % (ci.label, mname, n.value.strip()[:30]), okb)
+                    if not okb:
+                        ctx.fail('A-TXN', mq(ci, mname), 'deferred transaction `%s`' % n.value.strip()[:30],
+                                 '%s.%s opens a deferred transaction (`%s`): its first SELECT takes a SHARED lock that the following INSERT must upgrade; if another '
+                                 'process has written a different key in between, sqlite reports SQLITE_BUSY immediately (the busy timeout does not apply to a lock '
+                                 'upgrade) - the operation raises "database is locked" and its entry is lost, where separate statements would have waited'
+                                 % (ci.label, mname, n.value.strip()[:30]), wh(ci, n.lineno))
         for name in ('__setitem__', '__delitem__', 'pop', 'setdefault'):
             fi, outs, eng = cache.outs(ci, name)
             if fi is None:
@@ -700,6 +716,22 @@ def rule_A_CODEC(ctx, repo):
     if n < 3:
         ctx.note('A-CODEC: only %d archive classes name their serializer modules at the call sites (three on the validated tree): a class that keeps its '
                  'serializer in an attribute is not compared here' % n)
+    # ... and the source-text format (serialized=False: `memo = <repr>` / getimportable) is read back by evaluating python source: import, exec or eval.
+    # ast.literal_eval accepts literals only, repr() writes constructor calls for everything else (range, frozenset, bytearray, any user class) - one such
+    # value makes the whole document unreadable, the bare excepts report "empty", and the next write drops every other entry
+    nlit = 0
+    for ci in archive_classes(repo):
+        for name, fi in sorted(ci.methods.items()):
+            for x in ast.walk(fi.node):
+                if isinstance(x, ast.Call) and ((isinstance(x.func, ast.Name) and x.func.id == 'literal_eval') or (isinstance(x.func, ast.Attribute) and x.func.attr == 'literal_eval')):
+                    nlit += 1
+                    ctx.ob('A-CODEC', '%s.%s: source text is evaluated, not literal_eval-ed' % (ci.label, name), False)
+                    ctx.fail('A-CODEC', mq(ci, name), 'literal_eval reads what repr wrote',
+                             '%s.%s reads the unserialised format with ast.literal_eval while the writers store repr(value) / an import line: repr of anything but a literal '
+                             '(range(2, 5), frozenset({1}), bytearray(b"x"), an instance) is a constructor call that literal_eval rejects - the reader fails for the whole '
+                             'document, the failure is reported as an empty archive / a missing key, and the next write removes the entries that were there'
+                             % (ci.label, name), wh(ci, x.lineno))
+    ctx.ob('A-CODEC', 'archive methods reading source text with literal_eval', nlit == 0)
     # ... and values are pickled *by value*: byref=True (or a by-reference pickler) writes classes and functions of the writer's __main__ as names another
     # program cannot resolve - the read fails there and the archive looks empty
     for ci in archive_classes(repo):
@@ -835,6 +867,15 @@ def rule_A_RED_MEM(ctx, repo):
         for h in hooks:
             src = unparse(own[h].node)
             carries = any(tok in src for tok in ('self.items()', 'dict(self)', 'self.__asdict__()', 'self.copy()')) or ':memory:' in src
+            # ... or the hook decides on the live database and leaves the case without a file to the default protocol (today's loud TypeError) / raises
+            for node in ast.walk(own[h].node):
+                if isinstance(node, ast.If):
+                    for st in node.body + node.orelse:
+                        if isinstance(st, ast.Raise):
+                            carries = True
+                        if isinstance(st, ast.Return) and isinstance(st.value, ast.Call) and isinstance(st.value.func, ast.Attribute) \
+                                and st.value.func.attr in ('__reduce_ex__', '__reduce__') and not (isinstance(st.value.func.value, ast.Name) and st.value.func.value.id == 'self'):
+                            carries = True
             if not carries:
                 bad = h
         ctx.ob('A-RED', '%s: a pickling hook accounts for the in-memory database' % lab, bad is None)
@@ -1437,6 +1478,12 @@ def rule_A_RED_COPY(ctx, repo, cache, parts=('red', 'copy')):
                                     ok = False
                                     why = 'forwards only part of its settings to the new archive (%s left out): the copy is opened with different settings and cannot read what was copied' % (
                                         ', '.join(lost) if lost else 'an unrecognised filter')
+            if ok and ('sql' in ci.label):
+                # a database table has no file that the copy could share by name: the sqlite default `:memory:` is private to its connection, so the
+                # new archive is empty until the entries are written into it - on every path, also when the copy keeps the original's name
+                ok = any(e.kind in ('WRITE', 'COPY') and e.depth == 0 for e in o.st.events)
+                why = 'returns the new archive without writing the entries into it on a path (%s): for the default in-memory database a copy under the same name ' \
+                      'is a new, empty database, so copy() != the original' % '; '.join('%s is %s' % (render(t)[:50], b) for t, b in list(o.st.facts.get('truth', {}).items())[-2:])
             ctx.ob('A-COPY', ci.label, ok)
             if not ok:
                 ctx.fail('A-COPY', mq(ci, 'copy'), 'copy: ' + why[:50], '%s.copy %s' % (ci.label, why), wh(ci, fi.node.lineno), render_path(o))
@@ -1638,6 +1685,54 @@ def rule_A_VIS_STAGE(ctx, repo, cache, props_note=''):
                      'the staging directory of %s._store is named "%s<random>" and the entry lister globs for "%s": while a store is in progress '
                      '(or after it crashed / failed) the staging directory is listed as a key that was never stored, and reading it raises KeyError' % (lab, pre, pat),
                      wh(ci, e.line), render_path(o))
+        # A-VIS (parked entries): a name derived from the live entry name (target + '~', target + '.old') to which the old entry is renamed while the new one
+        # moves in carries the entry prefix: the lister shows it as a key nobody stored (and, if the writer dies before removing it, for ever)
+        parked = None
+        for o in outs:
+            for e in o.st.events:
+                if e.kind == 'RENAME' and len(e.args) > 1:
+                    D = e.args[1]
+                    if D[0] == 'bin' and D[1] == '+' and on_self_store(D[2]):
+                        b = ('bin', '+', basename_term(D[2]), D[3])
+                        pre, ex = aprefix(b)
+                        mm = match3(pre, ex, pat)
+                        if mm is not False and not any(pre.startswith(x) for x in excl) and parked is None:
+                            parked = (o, e, D)
+        ctx.ob('A-VIS', '%s: no entry is parked under a second listed name' % lab, parked is None)
+        if parked is not None:
+            o, e, D = parked
+            ctx.fail('A-VIS', mq(ci, '_store'), 'old entry parked under a listed name',
+                     '%s._store renames the entry being replaced to %s, a name that still matches the lister pattern "%s": until it is removed (and for ever if the writer '
+                     'is killed first) every reader lists a key that was never stored - keys(), len() and iteration disagree with what was written' % (lab, render(D)[:70], pat),
+                     wh(ci, e.line), render_path(o))
+        # A-VIS (one lister): whatever enumerates the archive directory applies the entry pattern.  A count or listing taken with os.scandir / os.listdir /
+        # os.walk / glob on the root itself also sees the staging directories of writes in progress (and those a killed writer left): len() and truthiness
+        # then disagree with keys()
+        second = None
+        nl = 0
+        for mname, mfi in sorted(ci.methods.items()):
+            for x in ast.walk(mfi.node):
+                if not isinstance(x, ast.Call):
+                    continue
+                fname_ = x.func.attr if isinstance(x.func, ast.Attribute) else x.func.id if isinstance(x.func, ast.Name) else ''
+                if fname_ not in ('walk', 'listdir', 'scandir', 'glob', 'iglob', 'iterdir', 'rglob'):
+                    continue
+                args_ = list(x.args) + ([x.func.value] if fname_ in ('iterdir', 'rglob') and isinstance(x.func, ast.Attribute) else [])
+                on_root = any("__state__['id']" in unparse(a_) or unparse(a_) in ('self.name', 'self._root') for a_ in args_[:1] + args_[-1:])
+                if not on_root:
+                    continue
+                nl += 1
+                filtered = any(k.arg in ('patterns', 'pattern') and ('PREFIX' in unparse(k.value) or (pat and pat.rstrip('*') and pat.rstrip('*') in unparse(k.value))) for k in x.keywords) \
+                    or any(('PREFIX' in unparse(a_) or (pat and pat.rstrip('*') and repr(pat.rstrip('*'))[1:-1] in unparse(a_))) for a_ in x.args)
+                if not filtered and second is None:
+                    second = (mname, x)
+        ctx.ob('A-VIS', '%s: every enumeration of the archive directory applies the entry pattern (%d sites)' % (lab, nl), second is None)
+        if second is not None:
+            mname, x = second
+            ctx.fail('A-VIS', mq(ci, mname), 'unfiltered enumeration of the archive directory',
+                     '%s.%s enumerates the archive directory with `%s`, without the entry pattern "%s" that the lister applies: staging directories of writes in progress '
+                     '(and those left by a killed writer) are counted as entries - len(), truthiness or iteration report keys that were never stored'
+                     % (lab, mname, ' '.join(unparse(x).split())[:70], pat), wh(ci, x.lineno))
         # A-STAGE (fresh name): the staging directory is private to one attempt: its name has a random / per-process / per-time component.  A name derived
         # from the key alone is shared with an interrupted or failed earlier attempt (and with a concurrent writer of the same key): pox.mkdir refuses the
         # existing directory, _store swallows that OSError, skips writing and publishes the other attempt's leftover
@@ -1698,7 +1793,7 @@ def same_path(a, b):
     return basename_term(a) == basename_term(b) and on_self_store(a) and on_self_store(b)
 
 
-def rule_A_PUB(ctx, repo, cache):
+def rule_A_PUB(ctx, repo, cache, only_foreign=False):
     for lab, routine in sorted(STORE_ROUTINES.items()):
         ci = archive_classes(repo, [lab])[0]
         params = None
@@ -1723,10 +1818,22 @@ def rule_A_PUB(ctx, repo, cache):
                 src = e.args[0]
                 pre = [x for x in evs[:i] if x.kind in ('UNLINK', 'RMTREE') and x.args and same_target(x.args[0], dst)
                        and not (x.kind == 'RMTREE' and len(x.args) > 1 and x.args[1] == C(False))]
+                if only_foreign:
+                    pre = []        # the order of removal and rename is a crash / concurrency question (C13 / C14); here only where the copy is staged
                 ok = not pre and on_self_store(src)
                 ctx.ob('A-PUB', None, ok)
                 if not ok and first is None:
                     first = (o, e, pre)
+        if only_foreign:
+            ctx.ob('A-PUB', '%s.%s stages next to its target' % (lab, routine), first is None)
+            if first is not None:
+                o, e, pre = first
+                ctx.fail('A-PUB', mq(ci, routine), 'foreign staging',
+                         '%s.%s builds the new object at %s and renames it into the archive: os.replace / os.rename cannot cross file systems, so for an archive that does not '
+                         'live on the file system of that directory the rename raises OSError(EXDEV), which the routine\'s own handler swallows - every dump silently stores '
+                         'nothing, and entries that were evicted after the dump are in neither memory nor the archive' % (lab, routine, render(e.args[0])[:70]),
+                         wh(ci, e.line), render_path(o))
+            continue
         # the live object itself is never opened for writing by the save routine
         final = ('state', 'id') if routine == '__save__' else None
         inplace = None
@@ -1988,7 +2095,8 @@ def rule_A_FACTORY_OPEN(ctx, repo, cache, open_only=False, do_open=True, factori
                     guarded = False
                     ex = o.st.facts.get('existsof', {})
                     for t, b in o.st.facts.get('truth', {}).items():
-                        if t in ex and b is False:
+                        # ... the store itself: a test on one of its listed entries ("this entry has no output file") says nothing about the store being new
+                        if t in ex and b is False and not (ex[t] is not None and contains_term(ex[t], lambda x: x[0] == 'iter')):
                             guarded = True
                     if not guarded:
                         bad = (o, e, c)
@@ -2065,6 +2173,15 @@ def rule_A_FNAME(ctx, repo, cache, aliasing=False):
             raise AnalysisError('anchor changed: %s._fname(self, key)' % lab)
         keyp = ('param', a[1].arg)
         n = 0
+        # ... and every key has a name: the mapping refuses nothing of its own accord.  It runs inside lookups as well as stores, outside their try blocks:
+        # a ValueError for "unsuitable" keys escapes from membership tests and from the wrappers' archive probe where a dict answers False / KeyError
+        refuses = [x for x in ast.walk(fi.node) if isinstance(x, (ast.Raise, ast.Assert))]
+        ctx.ob('A-FNAME', '%s._fname maps every key to a name (no raise of its own)' % lab, not refuses)
+        for x in refuses:
+            ctx.fail('A-FNAME', mq(ci, '_fname'), 'entry name refused for some keys',
+                     '%s._fname raises for some keys (`%s`): the name is computed inside lookups, membership tests and deletions as well as stores, outside their '
+                     'handlers - an archive that used to answer KeyError / False for such a key now fails with another exception, which escapes from the wrappers\' '
+                     'archive probe before the function is evaluated' % (lab, ' '.join(unparse(x).split())[:60]), wh(ci, x.lineno))
         for o in outs:
             if o.kind != RETURN:
                 continue
@@ -2274,6 +2391,19 @@ def walk_own(fn):
         todo.extend(ast.iter_child_nodes(n))
 
 
+_RD_OPTS = ('object_hook', 'object_pairs_hook', 'parse_float', 'parse_int', 'parse_constant', 'cls')
+_WR_OPTS = ('default', 'skipkeys', 'cls', 'ensure_ascii', 'allow_nan')
+# ensure_ascii=False: the text is no longer pure ASCII, so what a reader gets depends on the locale encodings of the writing and the reading process (and a str
+# with a lone surrogate, which was stored as an escape, makes the write fail); allow_nan=False: a result holding nan / inf can no longer be stored
+_OPT_DEFAULTS = {'ensure_ascii': True, 'allow_nan': True, 'skipkeys': False, 'default': None, 'cls': None, 'object_hook': None, 'object_pairs_hook': None,
+                 'parse_float': None, 'parse_int': None, 'parse_constant': None}
+CODEC_OPTIONS = {'load': _RD_OPTS, 'loads': _RD_OPTS, 'dump': _WR_OPTS, 'dumps': _WR_OPTS}
+
+
+def _is_default(opt, node):
+    return opt in _OPT_DEFAULTS and isinstance(node, ast.Constant) and node.value == _OPT_DEFAULTS[opt] and type(node.value) is type(_OPT_DEFAULTS[opt])
+
+
 def rule_A_CODEC_CONFIG(ctx, repo):
     """A-CODEC (whether a value is encoded is decided by the archive's settings, never by looking at the value).  A writer that pickles only "what the backend
     cannot store natively" and a reader that unpickles "what looks like a pickle" are not inverses: a user's own bytes that happen to be a pickle
@@ -2370,6 +2500,54 @@ def rule_A_CODEC_CONFIG(ctx, repo):
                              'inverses - bytes that a user stored and that happen to be a valid pickle are read back as the unpickled object, and a value the test '
                              'misjudges is returned in its stored representation' % (lab, mname, nm, ','.join(sorted(data)), what), '%s:%d' % (m.rel, call.lineno))
     ctx.ob('A-CODEC', 'codec calls on parameters examined', True, n=max(n, 1))
+    # ... and the serializer is called without options that rewrite what it carries: a reader's object_hook / object_pairs_hook / parse_* is applied to EVERY
+    # object, number or constant of the document - also those inside stored results - and a writer's default= / skipkeys= stores something else than was given
+    nopt = 0
+    for lab, ci, mname, fi, skip in units:
+        fn = fi.node
+        for call in ast.walk(fn):
+            if not (isinstance(call, ast.Call) and isinstance(call.func, ast.Attribute) and call.func.attr in CODEC_OPTIONS):
+                continue
+            recv = call.func.value
+            if not isinstance(recv, ast.Name) or recv.id in ('self', 'cache', 'archive'):
+                continue
+            nopt += 1
+            given = [(k.arg, call.lineno) for k in call.keywords if k.arg and not _is_default(k.arg, k.value)]
+            for k in call.keywords:
+                if k.arg is None and isinstance(k.value, ast.Dict):
+                    given += [(kk.value, call.lineno) for kk, vv in zip(k.value.keys, k.value.values) if isinstance(kk, ast.Constant) and not _is_default(kk.value, vv)]
+                elif k.arg is None and isinstance(k.value, ast.Name):
+                    # **kwd: every dict literal the name is bound to in this function (pik, mode, kwd = json, 'w', {})
+                    for x in ast.walk(fn):
+                        if not isinstance(x, ast.Assign):
+                            continue
+                        for t in x.targets:
+                            vals = []
+                            if isinstance(t, ast.Name) and t.id == k.value.id:
+                                vals = [x.value]
+                            elif isinstance(t, ast.Tuple) and isinstance(x.value, ast.Tuple) and len(t.elts) == len(x.value.elts):
+                                vals = [v for tt, v in zip(t.elts, x.value.elts) if isinstance(tt, ast.Name) and tt.id == k.value.id]
+                            for v in vals:
+                                if isinstance(v, ast.Dict):
+                                    given += [(kk.value, x.lineno) for kk, vv in zip(v.keys, v.values) if isinstance(kk, ast.Constant) and not _is_default(kk.value, vv)]
+                                elif isinstance(v, ast.Call) and isinstance(v.func, ast.Name) and v.func.id == 'dict':
+                                    given += [(kw.arg, x.lineno) for kw in v.keywords if kw.arg and not _is_default(kw.arg, kw.value)]
+            bad = [(o_, ln) for o_, ln in given if o_ in CODEC_OPTIONS[call.func.attr]]
+            if any(o_ == 'ensure_ascii' for o_, _ in bad):
+                # raw text is as good as escapes when every file of this routine is opened with an explicit unicode encoding that passes lone surrogates
+                opens = [c for c in ast.walk(fn) if isinstance(c, ast.Call) and isinstance(c.func, ast.Name) and c.func.id == 'open']
+                if opens and all(any(k.arg == 'encoding' for k in c.keywords) and any(k.arg == 'errors' and isinstance(k.value, ast.Constant)
+                                 and k.value.value == 'surrogatepass' for k in c.keywords) for c in opens):
+                    bad = [(o_, ln) for o_, ln in bad if o_ != 'ensure_ascii']
+            ctx.ob('A-CODEC', '%s.%s: %s.%s(...) rewrites nothing on the way (%s)' % (lab, mname, recv.id, call.func.attr, ','.join(sorted(str(o_) for o_, _ in given)) or 'no options'), not bad)
+            if bad:
+                o_, ln = bad[0]
+                ctx.fail('A-CODEC', mq(ci, mname) if skip else '%s::%s' % (m.rel, mname), '%s.%s(..., %s=...)' % (recv.id, call.func.attr, o_),
+                         '%s.%s passes %s= to %s.%s: the hook is applied to every object / number of the stored document, not only to the archive\'s own key -> value '
+                         'table, so a stored result that contains such an item (a dict with numeral-looking keys, a float, a NaN) is read back - or written - as something '
+                         'else than the function returned' % (lab, mname, o_, recv.id, call.func.attr), '%s:%d' % (m.rel, ln))
+    if nopt < 4:
+        raise AnalysisError('A-CODEC (options): fewer than four serializer calls found in klepto/_archives.py (dir_archive / file_archive readers and writers are anchors)')
     if n < 2:
         raise AnalysisError('A-CODEC (configuration-driven): fewer than two codec calls on a parameter found (hdf_archive._loadval / _dumpval are anchors)')
 
@@ -2556,3 +2734,116 @@ def rule_A_ZSTREAM(ctx, repo):
                                  'block is fed at the wrong stream position, and an entry whose compressed form is longer than one block cannot be read back'
                                  % (fn.name, x.func.value.id, ', '.join(unparse(a)[:20] for a in x.args)), '%s:%d' % (m.rel, x.lineno))
     ctx.ob('A-CODEC', 'streaming decompress calls examined (none today: read_zfile decompresses in one shot)', True, n=max(n, 1))
+
+
+def rule_A_PATHNORM(ctx, repo):
+    """A-PATH (two paths are compared in one normal form).  An archive keeps its location as given or as os.path.abspath(...); a test that compares it (==, !=, in,
+    startswith, commonpath) with a path that went through os.path.realpath - or the reverse - answers "different" whenever the location is reached through a
+    symbolic link (a linked home, /tmp on macOS, a project checked out under a link), although both name the same directory.  Such tests guard removals and
+    publications ("only remove what is an entry of this archive"), so with a linked root every key is refused, and the refusals end in the handlers that already
+    swallow a failed publication: nothing reaches the archive and every call recomputes.  Both sides carry realpath, or neither does."""
+    m = repo.mod('_archives')
+    n = 0
+
+    def osfn(call):
+        f = call.func
+        if isinstance(f, ast.Attribute) and isinstance(f.value, ast.Attribute) and f.value.attr == 'path':
+            return f.attr
+        if isinstance(f, ast.Name) and f.id in ('realpath', 'abspath', 'dirname', 'normpath', 'join', 'basename', 'expanduser', 'commonpath', 'commonprefix'):
+            return f.id
+        return None
+
+    def sig(e, fn, ci, depth=0, seen=()):
+        """{'real'} / {'abs'} / {'raw'} / {'const'}: the normal forms the path expression can be in"""
+        if depth > 6:
+            return set(['raw'])
+        if isinstance(e, ast.Constant):
+            return set(['const'])
+        if isinstance(e, ast.Call):
+            nm = osfn(e)
+            if nm == 'realpath':
+                return set(['real'])
+            if nm == 'abspath' and e.args:
+                s0 = sig(e.args[0], fn, ci, depth + 1, seen)
+                return set(['real']) if s0 == set(['real']) else set(['abs'])
+            if nm in ('dirname', 'normpath', 'join', 'expanduser') and e.args:
+                return sig(e.args[0], fn, ci, depth + 1, seen)
+            if nm in ('commonpath', 'commonprefix') and e.args and isinstance(e.args[0], (ast.List, ast.Tuple)):
+                out = set()
+                for x in e.args[0].elts:
+                    out |= sig(x, fn, ci, depth + 1, seen)
+                return out
+            if isinstance(e.func, ast.Attribute) and e.func.attr in ('rstrip', 'lstrip', 'strip', 'replace', 'format'):
+                return sig(e.func.value, fn, ci, depth + 1, seen)
+            if isinstance(e.func, ast.Attribute) and isinstance(e.func.value, ast.Name) and e.func.value.id == 'self' and ci is not None \
+                    and e.func.attr in ci.methods and e.func.attr not in seen:
+                out = set()
+                f2 = ci.methods[e.func.attr].node
+                for r in ast.walk(f2):
+                    if isinstance(r, ast.Return) and r.value is not None:
+                        out |= sig(r.value, f2, ci, depth + 1, seen + (e.func.attr,))
+                return out or set(['raw'])
+            return set(['raw'])
+        if isinstance(e, ast.Subscript):
+            if isinstance(e.slice, ast.Slice):
+                return sig(e.value, fn, ci, depth + 1, seen)
+            src = unparse(e)
+            if src.startswith('self.__state__[') and ci is not None and isinstance(e.slice, ast.Constant):
+                key = e.slice.value
+                out = set()
+                for mname, fi2 in ci.methods.items():
+                    for x in ast.walk(fi2.node):
+                        if isinstance(x, ast.Assign):
+                            for t in x.targets:
+                                if unparse(t) == src:
+                                    out |= sig(x.value, fi2.node, ci, depth + 1, seen)
+                                if unparse(t) == 'self.__state__' and isinstance(x.value, ast.Dict):
+                                    for kk, vv in zip(x.value.keys, x.value.values):
+                                        if isinstance(kk, ast.Constant) and kk.value == key:
+                                            out |= sig(vv, fi2.node, ci, depth + 1, seen)
+                return out or set(['raw'])
+            return set(['raw'])
+        if isinstance(e, ast.Name):
+            out = set()
+            for x in ast.walk(fn):
+                if isinstance(x, ast.Assign) and x.value is not e:
+                    for t in x.targets:
+                        if isinstance(t, ast.Name) and t.id == e.id and not any(y is e for y in ast.walk(x.value)):
+                            out |= sig(x.value, fn, ci, depth + 1, seen)
+            return out or set(['raw'])
+        if isinstance(e, ast.BinOp):
+            return sig(e.left, fn, ci, depth + 1, seen)
+        if isinstance(e, ast.IfExp):
+            return sig(e.body, fn, ci, depth + 1, seen) | sig(e.orelse, fn, ci, depth + 1, seen)
+        return set(['raw'])
+    units = []
+    for lab, ci in sorted(m.classes.items()):
+        for mname, fi in sorted(ci.own_methods.items() if hasattr(ci, 'own_methods') else ci.methods.items()):
+            units.append((lab, ci, mname, fi))
+    for fname, fi in sorted(m.functions.items()):
+        units.append((m.rel, None, fname, fi))
+    for lab, ci, mname, fi in units:
+        fn = fi.node
+        for x in ast.walk(fn):
+            pairs = []
+            if isinstance(x, ast.Compare) and len(x.ops) == 1 and isinstance(x.ops[0], (ast.Eq, ast.NotEq, ast.In, ast.NotIn)):
+                pairs.append((x.left, x.comparators[0]))
+            elif isinstance(x, ast.Call) and isinstance(x.func, ast.Attribute) and x.func.attr in ('startswith', 'endswith') and x.args:
+                pairs.append((x.func.value, x.args[0]))
+            elif isinstance(x, ast.Call) and osfn(x) in ('commonpath', 'commonprefix') and x.args and isinstance(x.args[0], (ast.List, ast.Tuple)) and len(x.args[0].elts) == 2:
+                pairs.append(tuple(x.args[0].elts))
+            for a, b in pairs:
+                sa, sb = sig(a, fn, ci), sig(b, fn, ci)
+                if 'real' not in (sa | sb) or sa == set(['const']) or sb == set(['const']):
+                    continue
+                sa, sb = sa - set(['const']), sb - set(['const'])
+                n += 1
+                ok = sa == set(['real']) and sb == set(['real'])
+                ctx.ob('A-PATH', '%s.%s: %s and %s are compared in one normal form' % (lab, mname, unparse(a)[:40], unparse(b)[:40]), ok)
+                if not ok:
+                    ctx.fail('A-PATH', mq(ci, mname) if ci is not None else '%s::%s' % (m.rel, mname), 'realpath compared with %s' % '/'.join(sorted((sa | sb) - set(['real']))),
+                             '%s.%s compares `%s` (%s) with `%s` (%s): one side resolves symbolic links and the other does not, so for an archive whose location is reached '
+                             'through a link the two never agree - the guarded operation (a removal before an entry is replaced, a publication) is refused for every key, '
+                             'and where the refusal lands in a handler that ignores failures the entry silently never reaches the archive'
+                             % (lab, mname, unparse(a)[:60], '/'.join(sorted(sa)), unparse(b)[:60], '/'.join(sorted(sb))), '%s:%d' % (m.rel, x.lineno))
+    ctx.ob('A-PATH', 'path comparisons involving realpath examined', True, n=max(n, 1))
